@@ -205,13 +205,20 @@ def write_back(tree, related_classes, sites, only=None, keep=()):
                     and e.func.id not in stores and e.func.id not in params \
                     and len(e.args) == 1 and isinstance(e.args[0], ast.Constant):
                 return True
+            if isinstance(e, (ast.Dict, ast.Tuple)) and not isinstance(getattr(e, "ctx", ast.Load()), ast.Store):
+                # a table of stable things, looked up only (see the use test below)
+                parts = [x for x in (list(e.keys) + list(e.values) if isinstance(e, ast.Dict) else e.elts)]
+                if any(x is None or isinstance(x, ast.Starred) for x in parts):
+                    return False
+                numeric[0] = False
+                return all(classify(x, locals_used, [True]) for x in parts)
             if isinstance(e, ast.Lambda):
                 own = {a.arg for a in e.args.args + e.args.kwonlyargs}
                 if e.args.vararg or e.args.kwarg or e.args.defaults or e.args.kw_defaults:
                     return False
                 for n in ast.walk(e.body):
                     if isinstance(n, ast.Name) and n.id not in own and (n.id in stores or n.id in params):
-                        return False
+                        locals_used.add(n.id)       # read when called: must not be re-bound after the binding
                     if isinstance(n, (ast.Lambda, ast.Yield, ast.YieldFrom, ast.NamedExpr)):
                         return False
                 numeric[0] = False
@@ -277,6 +284,21 @@ def write_back(tree, related_classes, sites, only=None, keep=()):
                 for i, st in enumerate(blk):
                     if not isinstance(st, FuncTypes + (ast.ClassDef,)):
                         todo.append(st)
+                    if isinstance(st, FuncTypes) and not st.decorator_list and not isinstance(st, ast.AsyncFunctionDef) \
+                            and len(stores.get(st.name, [])) == 1 and ast.unparse(st) not in keep:
+                        # def f(x): return E   handed on once as a value: the lambda it is
+                        b_ = [x for x in st.body if not (isinstance(x, ast.Expr) and isinstance(x.value, ast.Constant))]
+                        a_ = st.args
+                        loads_ = [n for n in ast.walk(fn) if isinstance(n, ast.Name) and n.id == st.name and isinstance(n.ctx, ast.Load)]
+                        called_ = [n for n in ast.walk(fn) if isinstance(n, ast.Call) and isinstance(n.func, ast.Name) and n.func.id == st.name]
+                        if len(b_) == 1 and isinstance(b_[0], ast.Return) and b_[0].value is not None and len(loads_) == 1 \
+                                and not called_ and not (a_.vararg or a_.kwarg or a_.defaults or a_.kw_defaults or a_.kwonlyargs) \
+                                and not any(isinstance(n, (ast.Yield, ast.YieldFrom, ast.Await)) for n in ast.walk(st)):
+                            lam = ast.Lambda(args=a_, body=b_[0].value)
+                            blk[i] = ast.copy_location(ast.Assign(targets=[ast.Name(id=st.name, ctx=ast.Store())], value=lam), st)
+                            ast.fix_missing_locations(blk[i])
+                            stores[st.name] = [blk[i].targets[0]]
+                            st = blk[i]
                     if not (isinstance(st, ast.Assign) and len(st.targets) == 1 and isinstance(st.targets[0], ast.Name)):
                         continue
                     v = st.targets[0].id
@@ -289,6 +311,14 @@ def write_back(tree, related_classes, sites, only=None, keep=()):
                     if not classify(e, locals_used, numeric):
                         continue
                     plain_attr = isinstance(e, (ast.Attribute, ast.Lambda, ast.Constant))
+                    if isinstance(e, (ast.Dict, ast.Tuple)):
+                        # every use is a look-up  v[...]
+                        subs = [n for n in ast.walk(fn) if isinstance(n, ast.Subscript) and isinstance(n.value, ast.Name)
+                                and n.value.id == v and isinstance(n.ctx, ast.Load)]
+                        nloads = sum(1 for n in ast.walk(fn) if isinstance(n, ast.Name) and n.id == v and isinstance(n.ctx, ast.Load))
+                        if len(subs) != nloads:
+                            continue
+                        plain_attr = True
                     # every use after the binding, inside the block that holds it
                     end = (getattr(st, "end_lineno", st.lineno), getattr(st, "end_col_offset", 0))
                     all_loads = [n for n in ast.walk(fn) if isinstance(n, ast.Name) and n.id == v and isinstance(n.ctx, ast.Load)]
@@ -371,12 +401,49 @@ def compat_spellings(tree, ref_tree):
     for nm in sorted(need):
         if not any((al.asname or al.name) == nm for st in imp for al in st.names):
             imp[0].names.append(ast.alias(name=nm, asname=None))     # the view imports what it names
+    # Poly({K: V for ..}) is Poly(OrderedDict((K, V) for ..)): the constructor copies the mapping, order is insertion order
+    if "OrderedDict" in ref_used and "OrderedDict" not in bound:
+        for n in ast.walk(tree):
+            if isinstance(n, ast.Call) and isinstance(n.func, ast.Name) and n.func.id in ("Poly", "OrderedDict") and n.args \
+                    and isinstance(n.args[0], ast.DictComp):
+                dc = n.args[0]
+                gen = ast.GeneratorExp(elt=ast.Tuple(elts=[dc.key, dc.value], ctx=ast.Load()), generators=dc.generators)
+                if n.func.id == "OrderedDict":
+                    n.args[0] = gen
+                else:
+                    n.args[0] = ast.Call(func=ast.Name(id="OrderedDict", ctx=ast.Load()), args=[gen], keywords=[])
+                count += 1
+    # super() in a method is super(<its class>, <its first parameter>)
+    ref_zero_arg_super = any(isinstance(n, ast.Call) and isinstance(n.func, ast.Name) and n.func.id == "super" and not n.args
+                             for n in ast.walk(ref_tree))
+    if not ref_zero_arg_super and "super" not in bound:
+        for c in [n for n in ast.walk(tree) if isinstance(n, ast.ClassDef)]:
+            for m in [x for x in c.body if isinstance(x, FuncTypes) and x.args.args]:
+                if any(isinstance(d, ast.Name) and d.id == "staticmethod" for d in m.decorator_list):
+                    continue
+                first = m.args.args[0].arg
+                for n in _own_nodes(m):
+                    if isinstance(n, ast.Call) and isinstance(n.func, ast.Name) and n.func.id == "super" and not n.args and not n.keywords:
+                        n.args = [ast.Name(id=c.name, ctx=ast.Load()), ast.Name(id=first, ctx=ast.Load())]
+                        count += 1
+    ref_yield_from = any(isinstance(n, ast.YieldFrom) for n in ast.walk(ref_tree))
+    nyf = 0
     for node in ast.walk(tree):
         for f in ("body", "orelse", "finalbody"):
             blk = getattr(node, f, None)
             if not (isinstance(blk, list) and blk and isinstance(blk[0], ast.stmt)):
                 continue
             for i, st in enumerate(blk):
+                if not ref_yield_from and isinstance(st, ast.Expr) and isinstance(st.value, ast.YieldFrom):
+                    # ``yield from X`` as a statement hands out the items of X one by one (what it also forwards -
+                    # send / throw / close - no consumer of these generators uses)
+                    nyf += 1
+                    var = "el__yf%d" % nyf
+                    blk[i] = ast.copy_location(ast.For(
+                        target=ast.Name(id=var, ctx=ast.Store()), iter=st.value.value,
+                        body=[ast.Expr(value=ast.Yield(value=ast.Name(id=var, ctx=ast.Load())))], orelse=[]), st)
+                    count += 1
+                    continue
                 if isinstance(st, ast.While) and isinstance(st.test, ast.NamedExpr) and isinstance(st.test.target, ast.Name) \
                         and not st.orelse and not any(isinstance(x, ast.Continue) for x in ast.walk(st)):
                     v = st.test.target.id
